@@ -238,6 +238,18 @@ theorem remove_operator_ends_and_records (c : Ctl) (id : Nat) (o : Op) (h : c.ge
       (removeOperator c id).1.runningOn o.region = none :=
   removeOperator_recorded c id o h hr
 
+/-- the `remove` event (admin `RemoveOperator` on the operator registered for its region), whole event: the
+    operator is ended, it is the record of its region and the region is free afterwards. -/
+theorem remove_event_ends_and_records (c : Ctl) (id : Nat) (o : Op) (h : c.getOp id = some o)
+    (hrun : c.runningOn o.region = some id) :
+    ∃ o', (stepEv c (.remove id)).1.getOp id = some o' ∧ o'.status.isEnd = true ∧ o'.region = o.region ∧
+      (stepEv c (.remove id)).1.recordOn o.region = some id ∧
+      (stepEv c (.remove id)).1.runningOn o.region = none := by
+  have hid : o.id = id := getOp_some h
+  have hr : (removeOperator c id).2 = true := by
+    rw [removeOperator_eq_run c id o h (by rw [hid]; exact hrun)]
+  exact removeOperator_recorded c id o h hr
+
 /-- the operator displaced by a higher-priority one is ended and recorded before the new one starts -/
 theorem replaced_operator_ends_and_is_recorded (c : Ctl) (region oldId : Nat) (old : Op)
     (hrun : c.runningOn region = some oldId) (hg : c.getOp oldId = some old) (hreg : old.region = region) :
@@ -266,6 +278,44 @@ theorem records_always_name_ended_operators (evs : List Ev) (r id : Nat)
 
 theorem records_sound_from_any_state (c : Ctl) (hi : RecInv c) (evs : List Ev) : RecInv (runEv c evs) :=
   recInv_runEv c evs hi
+
+/-- **recorded_region_stays_recorded**: once a region has a record (e.g. after any of the sites above), then after
+    any further events it still has one, and that record names an existing operator of the region in an end
+    status.  (The model has no TTL: PD's record cache forgets an entry after ten minutes.) -/
+theorem recorded_region_stays_recorded (c : Ctl) (hi : RecInv c) (r : Nat) (h : HasRec c r) (evs : List Ev) :
+    ∃ id o, (r, id) ∈ (runEv c evs).records ∧ (runEv c evs).getOp id = some o ∧ o.region = r ∧
+      o.status.isEnd = true := by
+  have h1 := hasRec_runEv c evs r h
+  have h2 := recInv_runEv c evs hi
+  unfold HasRec at h1
+  rw [List.any_eq_true] at h1
+  obtain ⟨x, hx, hxr⟩ := h1
+  have hx1 : x.1 = r := by simpa using hxr
+  have hmem : (r, x.2) ∈ (runEv c evs).records := by rw [← hx1]; exact hx
+  obtain ⟨o, g, hr, he⟩ := h2 r x.2 hmem
+  exact ⟨x.2, o, hmem, g, hr, he⟩
+
+theorem hasRec_of_recordOn {c : Ctl} {r id : Nat} (h : c.recordOn r = some id) : HasRec c r := by
+  unfold Ctl.recordOn at h
+  unfold HasRec
+  cases hf : c.records.find? (fun x => x.1 == r) with
+  | none => rw [hf] at h; cases h
+  | some x =>
+    rw [List.any_eq_true]
+    have hp := List.find?_some hf
+    exact ⟨x, List.mem_of_find?_eq_some hf, hp⟩
+
+/-- **removed_operator_stays_accounted_for**: an operator removed from the running map by `RemoveOperator`
+    is ended and recorded at once, and after any further events its region still has a record naming an ended
+    operator of that region – the full "ended and recorded" clause for this way out of the running set, over
+    whole histories. -/
+theorem removed_operator_stays_accounted_for (c : Ctl) (hi : RecInv c) (id : Nat) (o : Op)
+    (h : c.getOp id = some o) (hrun : c.runningOn o.region = some id) (evs : List Ev) :
+    ∃ k x, (o.region, k) ∈ (runEv c (.remove id :: evs)).records ∧
+      (runEv c (.remove id :: evs)).getOp k = some x ∧ x.region = o.region ∧ x.status.isEnd = true := by
+  obtain ⟨_, _, _, _, hrec, _⟩ := remove_event_ends_and_records c id o h hrun
+  have hi' := recInv_stepEv c (.remove id) hi
+  exact recorded_region_stays_recorded _ hi' o.region (hasRec_of_recordOn hrec) evs
 
 /-- non-vacuity: a running operator, removed -/
 example :
